@@ -16,6 +16,7 @@ Trace == ndJsonDeserialize("trace.ndjson")
 \* clause set -> bit mask (a short tuple is printed on one line)
 Code(cl) == (IF "window-empty" \in cl THEN 1 ELSE 0) + (IF "sched-start-not-at-previous-end" \in cl THEN 2 ELSE 0)
             + (IF "row-label-not-window-start" \in cl THEN 4 ELSE 0) + (IF "row-count-not-window-content" \in cl THEN 8 ELSE 0)
+            + (IF "window-advanced-by-initial-failure" \in cl THEN 16 ELSE 0)
 
 TraceInit == st = P!Init0 /\ l = 1 /\ bad = 0 /\ TLCSet(1, 0)
 
